@@ -24,3 +24,4 @@ def run(prog, chk):
     C.swap_handover(prog, chk, "C02.e", list(H))
     C.bucket_index(prog, chk, "C02.f", H)
     C.iterator_param_alias(prog, chk, "C02.g", H)
+    C.wrappers(prog, chk, "C02.w", H)
